@@ -93,9 +93,10 @@ BIGBASE = 1 << 53
 
 def int_actual(v):
     a = abs(v)
-    if a < BIG:
+    if a < BIG // 2:
         return v
-    x = BIGBASE + (a - BIG)
+    q = (a + BIG // 2) // BIG          # q * BIG + r (|r| < 2^22) stands for q * 2^53 + r, see harness/bqlu IntActual
+    x = q * BIGBASE + (a - q * BIG)
     return x if v > 0 else -x
 
 
